@@ -47,6 +47,13 @@ expressions
   `np.any(ss < c)`                        `Py6.anyDistLt ss c` = `0 < c ∧ some squared distance < c²` — exactly `‖·‖ < c` without the
                                           square root (distances are ≥ 0, so for c ≤ 0 the comparison is false)
   `np.array(xs)` on a list of rows        the same rows (shape / dtype bookkeeping is not modelled: an empty list stays empty)
+  `g = nx.Graph()`, `g.add_edges_from(bs)`  a networkx graph is the list of the edges added so far, in insertion order (`Py6.NxGraph`)
+  `g.nodes`, `g.neighbors(n)`             `Py6.nxNodes g` (end points in first-seen order), `Py6.nxNeighbors g n` (the other end points of
+                                          the edges that mention n, in insertion order, without repetition): networkx's insertion-ordered
+                                          iteration, pinned by python assertions in tools/gen_code6_selftest.py
+  `itertools.combinations(xs, 2)`         `Py6.combinations2 xs`: the pairs (xs[i], xs[j]), i < j, in lexicographic order of (i, j)
+  `[e for (a, b) in xs]`                  a comprehension with a tuple target: `List.map (fun (a, b) => e) xs`
+  `x += ys` on lists                      `x = x + ys`
   `Atoms(k1=e1, …)` (`ctor`)              the constructor call as DATA: (the sorted list of ALL keyword names passed, then for
                                           every keyword declared in `ctor["kwargs"]` `some value` / `none` = not passed);
                                           positional arguments are Unsupported
@@ -62,7 +69,8 @@ from .gen_code import (Fn, V, Unsupported, STR, NAT, INT, NUM, BOOL, VEC3, MAT3,
 
 UNIT = "unit"
 SQDISTS = "sqdists"        # a column of SQUARED euclidean distances (the result of cdist; only `np.any(ss < c)` may read it)
-_EXTRA_TYPES = {UNIT: "Unit", SQDISTS: "Py6.SqDists"}
+NXGRAPH = "nxgraph"        # a networkx Graph: the edges added so far, in insertion order
+_EXTRA_TYPES = {UNIT: "Unit", SQDISTS: "Py6.SqDists", NXGRAPH: "Py6.NxGraph"}
 
 
 def _patched_lean_ty(orig):
@@ -139,6 +147,24 @@ class Fn6(Fn):
     def stmt(self, s, rest, env, conts, mode):
         if isinstance(s, ast.Expr) and ast.unparse(s.value) in self.cfg.get("skip_stmts", ()):
             return self.block(rest, env, conts, mode)
+        if isinstance(s, ast.AugAssign) and isinstance(s.op, ast.Add) and isinstance(s.target, ast.Name) and s.target.id in env and \
+                isinstance(env[s.target.id].ty, tuple) and env[s.target.id].ty[0] == "list":
+            # x += ys on lists
+            new = ast.copy_location(ast.Assign(targets=[ast.Name(id=s.target.id, ctx=ast.Store())],
+                                               value=ast.BinOp(left=ast.Name(id=s.target.id, ctx=ast.Load()), op=ast.Add(), right=s.value)), s)
+            ast.fix_missing_locations(new)
+            return self.block([new] + list(rest), env, conts, mode)
+        if isinstance(s, ast.Expr) and isinstance(s.value, ast.Call) and isinstance(s.value.func, ast.Attribute) and \
+                s.value.func.attr == "add_edges_from" and isinstance(s.value.func.value, ast.Name) and s.value.func.value.id in env and \
+                env[s.value.func.value.id].ty == NXGRAPH and len(s.value.args) == 1 and not s.value.keywords:
+            x = s.value.func.value.id
+            g = env[x]
+            bs = self.coerce(s, self.ex(s.value.args[0], env), LIST(TUP(NAT, NAT)))
+            nm = self.lname(x)
+            e2 = dict(env)
+            e2[x] = V(nm, NXGRAPH, (), {nm})
+            return self.with_binds(bs.binds, ("let", nm, V("(Py6.nxAddEdges %s %s)" % (g.term, bs.term), NXGRAPH, (), g.refs | bs.refs),
+                                              self.block(rest, e2, conts, mode)))
         if isinstance(s, ast.Assign) and len(s.targets) == 1 and isinstance(s.targets[0], ast.Name) and "self" in env and \
                 ast.unparse(s.value) == "self.copy()" and s.targets[0].id not in self.cfg.get("attrs", {}):
             # x = self.copy(): a deep copy; x.attr is self.attr as of now
@@ -198,9 +224,13 @@ class Fn6(Fn):
         # as the base class, but the body may contain further loops; all of them must update the same ONE variable
         changed = []
         for n in ast.walk(ast.Module(body=s.body, type_ignores=[])):
-            if isinstance(n, (ast.AugAssign, ast.Break, ast.Continue, ast.While, ast.Raise, ast.Return)):
+            if isinstance(n, (ast.Break, ast.Continue, ast.While, ast.Raise, ast.Return)):
                 self.fail(n, "statement %s in a loop body" % type(n).__name__)
             tgt = None
+            if isinstance(n, ast.AugAssign):
+                if not isinstance(n.target, ast.Name):
+                    self.fail(n, "augmented assignment target")
+                tgt = n.target.id
             if isinstance(n, ast.Assign) and len(n.targets) == 1:
                 t = n.targets[0]
                 tgt = t.id if isinstance(t, ast.Name) else (t.value.id if isinstance(t, ast.Subscript) and isinstance(t.value, ast.Name) else None)
@@ -234,7 +264,38 @@ class Fn6(Fn):
         return super().fragment_body(stmts, steps, env)
 
     # -------------------------------------------------------------- expressions
+    def ex_ListComp(self, node, env, want):
+        g = node.generators[0] if len(node.generators) == 1 else None
+        if g is not None and not g.ifs and not g.is_async and isinstance(g.target, ast.Tuple) and all(isinstance(e, ast.Name) for e in g.target.elts):
+            src = self.ex(g.iter, env)
+            if src.ty == OPAQUE:
+                return src
+            if not (isinstance(src.ty, tuple) and src.ty[0] == "list" and isinstance(src.ty[1], tuple) and src.ty[1][0] == "tuple" and
+                    len(src.ty[1][1]) == len(g.target.elts)) or src.items is not None:
+                self.fail(node, "comprehension with a tuple target over %s" % (src.ty,))
+            e2 = dict(env)
+            names = [self.lname(e.id) for e in g.target.elts]
+            for e, nm, ty in zip(g.target.elts, names, src.ty[1][1]):
+                e2[e.id] = V(nm, ty, (), {nm})
+            body = self.ex(node.elt, e2)
+            if body.ty == OPAQUE:
+                return body
+            if body.binds:
+                self.fail(node, "comprehension element that may raise")
+            if body.items is not None and body.term == "?":
+                body = self.coerce(node, body, LIST(self.unify(node, [x.ty for x in body.items])))
+            return V("(List.map (fun (%s) => %s) %s)" % (", ".join(names), body.term, src.term), LIST(body.ty), src.binds,
+                     (body.refs - set(names)) | src.refs)
+        return super().ex_ListComp(node, env, want)
+
+    def nx_bound(self, node):
+        if not any(isinstance(n, ast.Import) and any(al.name == "networkx" and al.asname == "nx" for al in n.names) for n in self.tree.body):
+            self.fail(node, "nx is not networkx")
+
     def ex_Attribute(self, node, env, want):
+        if node.attr == "nodes" and isinstance(node.value, ast.Name) and node.value.id in env and env[node.value.id].ty == NXGRAPH:
+            g = env[node.value.id]
+            return V("(Py6.nxNodes %s)" % g.term, LIST(NAT), g.binds, g.refs)
         if isinstance(node.value, ast.Name) and node.value.id != "self" and (node.value.id + "." + node.attr) in env and \
                 node.value.id in env and env[node.value.id].ty == OPAQUE and node.value.id not in self.cfg.get("objattrs", {}):
             return env[node.value.id + "." + node.attr]         # an attribute of a copy of self
@@ -301,6 +362,29 @@ class Fn6(Fn):
         f = node.func
         kw = {k.arg: k.value for k in node.keywords}
         fname = ast.unparse(f)
+        # networkx graphs, itertools.combinations
+        if fname == "nx.Graph" and "nx" not in env and not node.args and not kw:
+            self.nx_bound(node)
+            return V("Py6.nxEmpty", NXGRAPH)
+        if isinstance(f, ast.Attribute) and f.attr == "neighbors" and isinstance(f.value, ast.Name) and f.value.id in env and \
+                env[f.value.id].ty == NXGRAPH and len(node.args) == 1 and not kw:
+            g = env[f.value.id]
+            n = self.ex(node.args[0], env)
+            if n.ty == OPAQUE:
+                return n
+            n = self.coerce(node, n, NAT)
+            binds, refs = _join(g, n)
+            return V("(Py6.nxNeighbors %s %s)" % (g.term, n.term), LIST(NAT), binds, refs)
+        if fname == "itertools.combinations" and "itertools" not in env and len(node.args) == 2 and not kw and \
+                isinstance(node.args[1], ast.Constant) and node.args[1].value == 2:
+            if not any(isinstance(n, ast.Import) and any(al.name == "itertools" and al.asname is None for al in n.names) for n in self.tree.body):
+                self.fail(node, "itertools is not the standard module")
+            xs = self.ex(node.args[0], env)
+            if xs.ty == OPAQUE:
+                return xs
+            if not (isinstance(xs.ty, tuple) and xs.ty[0] == "list") or xs.items is not None:
+                self.fail(node, "combinations of %s" % (xs.ty,))
+            return V("(Py6.combinations2 %s)" % xs.term, LIST(TUP(xs.ty[1], xs.ty[1])), xs.binds, xs.refs)
         # range(n)
         if fname == "range" and "range" not in env and len(node.args) == 1 and not kw:
             n = self.ex(node.args[0], env)
@@ -520,6 +604,13 @@ FUNCTIONS6 += [
              "`0 < cutoff ∧ ‖image − atom2‖² < cutoff²` (Py6.cdistSqCol / Py6.anyDistLt); `none` = KeyError of max_bond_length / IndexError"),
 ]
 
+FUNCTIONS6 += [
+    # ---- item 5 (first half): calc_angles
+    dict(file="mofun/rough_uff.py", py="calc_angles", lean="calcAngles", params=[("bonds", LIST(TUP(NAT, NAT)))], nested_loops=True,
+         np_array_rows=True, locals={"angles": LIST(LIST(NAT))}, ret=LIST(LIST(NAT)),
+         doc="; `bonds` is the list of the rows of the (n, 2) array; the result is the list of the rows `(a, n, b)` in the order they are appended"),
+]
+
 PRELUDE6 = r'''/- GENERATED on every run by harness/gen_code6.py from the sources of /repo — do not edit.
    Python → Lean translation, batch 6 (container operations, bond detection, term enumeration); the supported subset is
    documented in gen_code.py and gen_code6.py.  `Mofun.Generated.Py6` is the fixed prelude of the primitives this batch adds;
@@ -579,6 +670,28 @@ def cdistSqCol (rows : List Vec3) (b : Vec3) : SqDists := ⟨rows.map (fun r => 
 /-- `np.any(ss < c)` for such a column: some distance is STRICTLY below `c`.  For reals `d ≥ 0`: `d < c ⟺ 0 < c ∧ d² < c²`;
     this is exactly that statement on the squares (no distance is below a cutoff `c ≤ 0`) -/
 def anyDistLt (ss : SqDists) (c : Rat) : Bool := decide (0 < c) && ss.sq.any (fun d => decide (d < c * c))
+
+/-- a networkx `Graph` built by `add_edges_from`: the edges added so far, in insertion order -/
+structure NxGraph where
+  edges : List (Nat × Nat)
+
+/-- `nx.Graph()` -/
+def nxEmpty : NxGraph := ⟨[]⟩
+/-- `g.add_edges_from(bonds)` -/
+def nxAddEdges (g : NxGraph) (bonds : List (Nat × Nat)) : NxGraph := ⟨g.edges ++ bonds⟩
+
+/-- `list(g.nodes)`: the end points of the edges in first-seen order (dicts keep insertion order) -/
+def nxNodes (g : NxGraph) : List Nat := dedup (g.edges.flatMap (fun e => [e.1, e.2]))
+
+/-- `list(g.neighbors(n))` = `list(g.adj[n])`: the other end points of the edges that mention `n`, in insertion order, without
+    repetition, direction ignored (a self-loop `(n, n)` puts `n` into its own list) -/
+def nxNeighbors (g : NxGraph) (n : Nat) : List Nat :=
+  dedup (g.edges.filterMap (fun e => if e.1 = n then some e.2 else if e.2 = n then some e.1 else none))
+
+/-- `itertools.combinations(xs, 2)`: `(xs[i], xs[j])` for `i < j`, in lexicographic order of `(i, j)` -/
+def combinations2 {α} : List α → List (α × α)
+  | [] => []
+  | x :: xs => xs.map (fun y => (x, y)) ++ combinations2 xs
 
 end Mofun.Generated.Py6
 
